@@ -265,6 +265,13 @@ def finish(pid, mod, tier, seed, records, stats, wall, n_planned):
         reasons[k] = reasons.get(k, 0) + 1
     coverage["inconclusive_reasons"] = dict(sorted(reasons.items(), key=lambda kv: -kv[1])[:8])
     coverage["known_findings_hit"] = {k: len(v) for k, v in known_hits.items()}
+    ctot, att = {}, {}
+    for r in records:
+        for k, v in (r.get("contracts") or {}).items():
+            ctot[k] = ctot.get(k, 0) + v
+        att.update(r.get("contracts_attached") or {})
+    coverage["in_flight_contract_evaluations"] = ctot
+    coverage["in_flight_contracts_attached_sites"] = att
     # replay files for unlisted violations, one per distinct class
     printed = []
     seen_cls = set()
